@@ -6,6 +6,8 @@ a negative index; (order) the backing dict and derived sets are built only from
 order-preserving constructions; (laws) the classes, interpreted from source, agree with the
 insertion-ordered-set semantics for every operation and every kind of operand, observed through
 iteration, len, membership, indexing and reversed().  Hash/eq of exotic elements is not decided.
+Further clauses (added later): C34.edges: issubset against str / bytes / dict operands counts the elements
+they yield; the constructor keeps the elements of a falsy iterable.
 """
 
 from __future__ import annotations
